@@ -161,23 +161,23 @@ Any edit of these statements breaks the pin below; the check then looks for a fa
 
 /-- the parser's header loop with the blank-line stop, the status assignments, `set_status_code`, `Response.Error`, the dispatcher, the server's read, `match_until` -/
 theorem http_statements_pinned :
-    Gen.Shapes.http_header_loop = ["key, value, tmp := \"\", \"\", \"\"", "key, tmp = match_until(p, \": \")", "p = tmp", "value, tmp = match_until(p, \"\\r\\n\")", "p = tmp"] ∧
-    Gen.Shapes.http_blank_line = ["if strings.HasPrefix(p, \"\\r\\n\")"] ∧
-    Gen.Shapes.http_body = ["req.body = p"] ∧
-    Gen.Shapes.http_parse_status = ["con.status_code = 400", "con.set_status_code(501)", "con.status_code = 400", "con.status_code = 400", "con.set_status_code(200)", "con.status_code = 400", "con.set_status_code(400)", "log.Println(\"@application http: header parse status_code:\", con.status_code)"] ∧
-    Gen.Shapes.http_set_status = ["if c.status_code == 0", "c.status_code = code"] ∧
-    Gen.Shapes.http_error = ["r.con.status_code = code"] ∧
-    Gen.Shapes.http_dispatch = ["_, exist := defaultMux.m[con.request.uri]", "defaultMux.m[con.request.uri].h(con.request, con.response)"] ∧
-    Gen.Shapes.http_server_read = ["<-s.notifyC"] ∧
-    Gen.Shapes.http_match_until = ["i := strings.Index(buf, delims)", "if i == -1"] := by decide
+    Gen.Shapes.http_header_loop = ["v4, v5, v6 := \"\", \"\", \"\"", "v4, v6 = match_until(v3, \": \")", "v3 = v6", "v5, v6 = match_until(v3, \"\\r\\n\")", "v3 = v6"] ∧
+    Gen.Shapes.http_blank_line = ["if strings.HasPrefix(v3, \"\\r\\n\")"] ∧
+    Gen.Shapes.http_body = ["v0.body = v3"] ∧
+    Gen.Shapes.http_parse_status = ["v1.status_code = 400", "v1.set_status_code(501)", "v1.status_code = 400", "v1.status_code = 400", "v1.set_status_code(200)", "v1.status_code = 400", "v1.set_status_code(400)", "log.Println(\"@application http: header parse status_code:\", v1.status_code)"] ∧
+    Gen.Shapes.http_set_status = ["if v0.status_code == 0", "v0.status_code = v1"] ∧
+    Gen.Shapes.http_error = ["v0.con.status_code = v1"] ∧
+    Gen.Shapes.http_dispatch = ["_, v2 := defaultMux.m[v1.request.uri]", "defaultMux.m[v1.request.uri].h(v1.request, v1.response)"] ∧
+    Gen.Shapes.http_server_read = ["<-v0.notifyC"] ∧
+    Gen.Shapes.http_match_until = ["v2 := strings.Index(v0, v1)", "if v2 == -1"] := by decide
 
 /-- the frame writer's length cases, the reader's header and length decoding, the masking loop, the header-bit constants -/
 theorem ws_statements_pinned :
-    Gen.Shapes.ws_send_len = ["length := len(data)", "c.writeBuf = make([]byte, 10+length)", "case length >= 1<<16", "binary.BigEndian.PutUint64(c.writeBuf[payloadStart:], uint64(length))", "case length > 125", "binary.BigEndian.PutUint16(c.writeBuf[payloadStart:], uint16(length))", "c.writeBuf[1] = byte(length)"] ∧
-    Gen.Shapes.ws_read_len = ["dataLen := int64(payloadLen)", "dataLen = int64(binary.BigEndian.Uint16(b[:2]))", "dataLen = int64(binary.BigEndian.Uint64(b[:8]))", "log.Printf(\"Read data length :%d,payload length %d\", payloadLen, dataLen)", "p := make([]byte, dataLen)"] ∧
-    Gen.Shapes.ws_read_hdr = ["_, err := c.conn.Readn(b[:2])", "final := b[0]&finalBit != 0", "log.Printf(\"read data 1 bit :%b\\n\", b[0])", "frameType := int(b[0] & 0xf)", "mask := b[1]&maskBit != 0", "payloadLen := int64(b[1] & 0x7F)", "_, err := c.conn.Readn(b[:2])", "dataLen = int64(binary.BigEndian.Uint16(b[:2]))", "_, err := c.conn.Readn(b[:8])", "dataLen = int64(binary.BigEndian.Uint64(b[:8]))"] ∧
+    Gen.Shapes.ws_send_len = ["v2 := len(v1)", "v0.writeBuf = make([]byte, 10+v2)", "case v2 >= 1<<16", "binary.BigEndian.PutUint64(v0.writeBuf[v3:], uint64(v2))", "case v2 > 125", "binary.BigEndian.PutUint16(v0.writeBuf[v3:], uint16(v2))", "v0.writeBuf[1] = byte(v2)"] ∧
+    Gen.Shapes.ws_read_len = ["v8 := int64(v7)", "v8 = int64(binary.BigEndian.Uint16(v3[:2]))", "v8 = int64(binary.BigEndian.Uint64(v3[:8]))", "log.Printf(\"Read data length :%d,payload length %d\", v7, v8)", "v9 := make([]byte, v8)"] ∧
+    Gen.Shapes.ws_read_hdr = ["_, v2 := v0.conn.Readn(v3[:2])", "v4 := v3[0]&finalBit != 0", "log.Printf(\"read data 1 bit :%b\\n\", v3[0])", "v5 := int(v3[0] & 0xf)", "v6 := v3[1]&maskBit != 0", "v7 := int64(v3[1] & 0x7F)", "_, v2 := v0.conn.Readn(v3[:2])", "v8 = int64(binary.BigEndian.Uint16(v3[:2]))", "_, v2 := v0.conn.Readn(v3[:8])", "v8 = int64(binary.BigEndian.Uint64(v3[:8]))"] ∧
     Gen.Shapes.ws_read_case = ["case 126", "case 127"] ∧
-    Gen.Shapes.ws_mask = ["pos := 0", "b[i] ^= key[pos&3]", "pos++"] ∧
+    Gen.Shapes.ws_mask = ["v2 := 0", "v1[v3] ^= v0[v2&3]", "v2++"] ∧
     Gen.Consts.ws_finalBit = Model.Ws.finalBit ∧ Gen.Consts.ws_maskBit = Model.Ws.maskBit ∧
     Gen.Consts.ws_TextMessage = Model.Ws.textMessage ∧ Gen.Consts.ws_CloseMessage = Model.Ws.closeMessage := by decide
 
